@@ -485,4 +485,35 @@ theorem lockOk_append {a b : Trace} (ha : lockOk a = true) (hb : lockOk b = true
 theorem lockOk_nil : lockOk [] = true := rfl
 theorem lockOk_pair : lockOk [.acqW, .relW] = true := by decide
 
+/-! ### `get` / `get_with_validation` by scan result -/
+
+theorem get_of_none (env : Env) (s : State) (k : Key) (h : (scan k s.slots 0).2 = none) :
+    MultiLayer.get env s k = ⟨{ s with slots := (scan k s.slots 0).1 }, .val none, []⟩ := by
+  simp only [MultiLayer.get, h]
+
+theorem get_of_some (env : Env) (s : State) (k : Key) {i : Nat} {v : Val} (h : (scan k s.slots 0).2 = some (i, v)) :
+    MultiLayer.get env s k =
+      ⟨{ s with slots := (scan k s.slots 0).1, tracker := touch s.tracker k i }, .val (some v), [.acqW, .relW]⟩ := by
+  simp only [MultiLayer.get, h]
+
+theorem getv_of_none (env : Env) (s : State) (k : Key) (ock : Option CK) (h : (scan k s.slots 0).2 = none) :
+    getv env s k ock = ⟨{ s with slots := (scan k s.slots 0).1 }, .val none, []⟩ := by
+  simp only [getv, h]
+
+/-- state after the scan and the tracker update -/
+def afterHit (s : State) (k : Key) (i : Nat) : State :=
+  { s with slots := (scan k s.slots 0).1, tracker := touch s.tracker k i }
+
+theorem getv_of_some (env : Env) (s : State) (k : Key) (ock : Option CK) {i : Nat} {v : Val}
+    (h : (scan k s.slots 0).2 = some (i, v)) :
+    getv env s k ock =
+      match env.hooks, ock with
+      | some hk, some ck =>
+        match validate hk ck v with
+        | .ok => ⟨afterHit s k i, .val (some v), [.acqW, .relW]⟩
+        | .failed => ⟨(remove (afterHit s k i) k).st, .err .corruption, [.acqW, .relW] ++ (remove (afterHit s k i) k).trace⟩
+        | .hookErr => ⟨(remove (afterHit s k i) k).st, .err .backend, [.acqW, .relW] ++ (remove (afterHit s k i) k).trace⟩
+      | _, _ => ⟨afterHit s k i, .val (some v), [.acqW, .relW]⟩ := by
+  simp only [getv, h, afterHit]
+
 end Cascette.Proofs.MultiLayer
